@@ -5,7 +5,14 @@ the buffer, loop fuel is never the reason of a failure when items consume input,
 accepted values are well-shaped).  The memory safety of the compiled C is a
 runtime fact: it is OBSERVED here with ASan+UBSan+LSan and an allocation ledger
 on mutated inputs, not proved (claim level: partial).
-Tie, two layers:
+Tie, four layers:
+ (leaf layer) the four functions that skip what an extensible type does not know (ber_skip_length,
+   uper_open_type_skip, oer_open_type_skip, xer_skip_unknown) through harness/leafdrv_c04.inc against
+   coq/Rt/SafetySkip.v: well-formed nested TLVs / open types cut at every offset and damaged.
+ (extensible-type layer) families of extensible SEQUENCE / SET / CHOICE, plain and nested (lib/c04_ext.py):
+   what a newer member of the family wrote is read by every member, in every syntax, cut at every offset,
+   with `d4x`: three decodes per input (exact-size poisoned block, then 32 octets 00 / ff behind the input:
+   the answer may not depend on them).
  (model layer) modules of the modelled algebra (lib/modgen.py): valid DER / UPER /
    OER / XER encodings of generated values are mutated (lib/c04_util.py) and fed
    to the C decoders through `d4` (harness/moddrv_c04.inc: exact-size poisoned
@@ -24,6 +31,7 @@ from vlib import *
 from modcorpus import *
 from widegen import WGen
 from c04_util import *
+import c04_ext as XE
 import c02 as C02
 import c01 as C01
 
@@ -77,10 +85,17 @@ def report_crash(run, m, line, meta, info, layer):
     what, rc, err = info
     site = stack_site(err)
     summ = re.findall(r"(SUMMARY: [^\n]*|runtime error: [^\n]*)", err or "")
-    if site and site[0].startswith("check_permitted_alphabet_") and any("left shift of" in x and "type 'int'" in x for x in summ) \
+    # asn1c emits check_permitted_alphabet_N for a UniversalString with ANY constraint (SIZE as well as FROM)
+    if site and site[0].startswith("check_permitted_alphabet_") and any("left shift of" in x and "by 24 places" in x and "type 'int'" in x for x in summ) \
             and re.search(r"UniversalString\s*\(", m["text"]):
         run.known_finding("C04-generated-alphabet-shift", line)
         run.count("known_C04-generated-alphabet-shift")
+        return
+    # an abort prints no sanitizer frames: the assertion text is what there is
+    if rc == -6 and meta["syn"] == "xer" and "OCTET_STRING__convert_entrefs" in (err or "") and "Assertion" in (err or "") and "val > 0" in (err or "") \
+            and re.search(rb"&#x?0*;", meta.get("data") or b""):
+        run.known_finding("C04-xer-charref-zero-assert", line)
+        run.count("known_C04-xer-charref-zero-assert")
         return
     how = "did not terminate within its CPU budget (hang)" if rc == 99 else "died (rc=%s, %s): sanitizer report, abort or signal" % (rc, what)
     run.violation("crash:%s:%s" % (layer, (site[0] if site else what)),
@@ -105,25 +120,35 @@ def check_c_line(run, m, line, o, meta, layer, tainted=None):
         run.violation("oracle:%s:consumed>size" % layer, dict(rep, what="consumed %d > size %d" % (r["consumed"], size)))
     if r["live"] != 0:
         run.violation("oracle:%s:leak" % layer, dict(rep, what="%d block(s) still live after ASN_STRUCT_FREE of the %s result" % (r["live"], r["rc"])))
+    if r.get("slack") and r["slack"] != "same":
+        run.violation("oracle:%s:reads-past-size" % layer, dict(rep, what="the answer depends on the octets BEHIND the %d octets the decoder was given: exact-size buffer -> %s %d, with 32 octets behind it -> %s"
+                                                                    % (size, r["rc"], r["consumed"], r["slack"])))
     if r["rc"] == "OK" and layer == "wide":
         # no reference here: the value-level expectations (re-encodable, prefix never accepted) are only counted
-        for k, c in (("der_encfail", r["der"] == "ENCFAIL" and r["ck"] == 0), ("re_fail", r["re"] == "FAIL" and r["ck"] == 0), ("prefix_ok", kind == "trunc")):
+        for k, c in (("der_encfail", r["der"].startswith("ENCFAIL") and r["ck"] == 0), ("re_fail", r["re"] == "FAIL" and r["ck"] == 0), ("prefix_ok", kind == "trunc")):
             if c:
                 run.count("wide_%s_%s" % (syn, k))
     elif r["rc"] == "OK":
         if r["der"] == "-":
             run.violation("oracle:%s:ok-without-structure" % layer, dict(rep, what="RC_OK but no structure returned"))
-        elif r["der"] == "ENCFAIL" and r["ck"] == 0:
-            run.violation("oracle:%s:not-reencodable" % layer, dict(rep, what="RC_OK, constraints hold, but the structure cannot be DER-encoded"))
-        if r["re"] == "FAIL" and r["ck"] == 0:
+        elif r["der"].startswith("ENCFAIL") and r["ck"] == 0:
+            fid = tainted(meta, r) if tainted else None
+            if fid:
+                run.known_finding(fid, line)
+                run.count("known_" + fid)
+            else:
+                run.violation("oracle:%s:not-reencodable" % layer, dict(rep, what="RC_OK, constraints hold, but the structure cannot be DER-encoded"))
+        if r["re"] == "FAIL" and r["ck"] == 0 and not r["der"].startswith("ENCFAIL"):
             fid = tainted(meta, r) if tainted else None
             if fid:
                 run.known_finding(fid, line)
                 run.count("known_" + fid)
             else:
                 run.violation("oracle:%s:not-reencodable(%s)" % (layer, syn), dict(rep, what="RC_OK, constraints hold, but the structure cannot be re-encoded in the syntax it was decoded from"))
-        if kind == "trunc":
+        if kind == "trunc" and meta.get("strict_prefix", True):
             run.violation("oracle:%s:prefix-accepted" % layer, dict(rep, what="a proper prefix (%d of %d octets) of a valid encoding decoded with RC_OK" % (size, len(orig))))
+        elif kind == "trunc":
+            run.count("%s_%s_prefix_ok_cross_version" % (layer, syn))
     if kind == "trunc":
         run.count("%s_%s_prefix_%s" % (layer, syn, r["rc"]))      # RC_WMORE on every proper prefix is C05's statement: counted only
     return r
@@ -134,6 +159,11 @@ def reencode_taint(m):
     def t(meta, r):
         tree = m["trees"].get(meta["tn"])
         if tree is None:
+            return None
+        if r["der"].startswith("ENCFAIL@"):
+            # (an extensible CHOICE that meets an alternative it does not know is returned RC_OK with NOTHING selected; it
+            # cannot be encoded and CHOICE_constraint says so: ck != 0.  Until /repo aaca4bb the checker of an enclosing
+            # SEQUENCE never asked it (C08-sequence-early-return) and this was classified here; no classifier since.)
             return None
         if meta["syn"] == "uper" and C01.has_semi_lb(tree):
             return "C01-uper-semiconstrained-lb"
@@ -372,6 +402,28 @@ END
 """
 
 
+# the text string types whose XER decoder converts character references (OCTET_STRING__convert_entrefs), with the
+# references at the case splits of OS__strtoent put directly into their text
+CHARREF_TEXT = """WX DEFINITIONS AUTOMATIC TAGS ::= BEGIN
+  XU ::= UTF8String
+  XI ::= IA5String
+  XB ::= BMPString
+  XV ::= UniversalString
+  XQ ::= SEQUENCE { a UTF8String, b VisibleString OPTIONAL, ... }
+END
+"""
+
+
+def charref_inputs(tn):
+    out = []
+    for f in CHARREFS:
+        for text in (f, b"a" + f + b"b", f + f):
+            body = (b"<a>" + text + b"</a><b>" + text + b"</b>") if tn == "XQ" else text
+            out.append(b"<" + tn.encode() + b">" + body + b"</" + tn.encode() + b">")
+        out.append(b"<" + tn.encode() + b">" + (b"<a>" if tn == "XQ" else b"") + b"x" + f)          # the buffer ends inside / behind the reference
+    return out
+
+
 def nested_set_inputs(rng):
     """short UPER/OER inputs that steer each decoder of module WS into the SET component (and some that do not)"""
     fixed = ["80", "6000", "c0", "e0", "0180", "01ff", "0101ff", "8180", "818001ff", "80ff", "ff", "c04080", "8101ff", "80028000", "800201ff", "80010780018000",
@@ -397,6 +449,7 @@ def wide_layer(run, rng, tier):
             continue
         wmods.append(wm)
     wmods.append({"name": "WS", "text": NESTED_SET_TEXT, "defs": [(n, None) for n in re.findall(r"^\s*(\w+) ::=", NESTED_SET_TEXT, flags=re.M)]})
+    wmods.append({"name": "WX", "text": CHARREF_TEXT, "defs": [(n, None) for n in re.findall(r"^\s*(\w+) ::=", CHARREF_TEXT, flags=re.M)]})
     tlog("wide: generating and building %d modules" % nmod)
     build_modules(wmods, tag="wide", moddrv_extra=INC, extra_ldflags=WRAP)
     tlog("wide: built")
@@ -466,6 +519,14 @@ def wide_layer(run, rng, tier):
                             lines.append("d4 %s %s %s" % (tn, syn, hexs(data)))
                             metas.append({"tn": tn, "syn": syn, "kind": "random", "data": data, "orig": data})
                             run.count("wide_nested_set_input")
+        if m["name"] == "WX":
+            for tn, _ in m["defs"]:
+                for data in charref_inputs(tn):
+                    if (tn, "xer", data) not in seen:
+                        seen.add((tn, "xer", data))
+                        lines.append("d4 %s xer %s" % (tn, hexs(data)))
+                        metas.append({"tn": tn, "syn": "xer", "kind": "charref", "data": data, "orig": data})
+                        run.count("wide_charref_input")
         jobs.append((m, lines, metas))
     tlog("wide: %d mutant lines generated" % sum(len(j[1]) for j in jobs))
     cres = run_many([(m["exe"], lines) for m, lines, metas in jobs], per_chunk=40, timeout=(150 if tier == "quick" else 1500))
@@ -483,6 +544,184 @@ def wide_layer(run, rng, tier):
         if lines:
             run.sample({"wide_module": m["text"][:300], "lines": len(lines), "first": lines[0][:100], "c": outs[0][:100]})
     return wmods
+
+
+# --------------------------------------------------------------------------------------------------
+# extensible types meeting what they do not know (lib/c04_ext.py): the inputs on which the skip functions run
+
+def ext_budgets(tier):
+    if tier == "quick":
+        return {"prefix_all": 600, "wraps_extra": 5, "eoc": 3, "framecut": 10, "p2c": 2, "battery_readers": 2, "generic": 6}
+    return {"prefix_all": 400, "wraps_extra": 5, "eoc": 8, "framecut": 40, "p2c": 4, "battery_readers": 5, "generic": 12}
+
+
+def ext_layer(run, rng, tier, model):
+    eb = ext_budgets(tier)
+    xmods = XE.gen_modules(rng, tier)
+    build_modules(xmods, tag="xext", moddrv_extra=INC, extra_ldflags=WRAP)
+    tlog("ext: %d modules built" % len(xmods))
+    jobs = []
+    for m in xmods:
+        if not m.get("exe"):
+            run.violation("build:module", {"what": "a valid generated module of extensible types was rejected or its code does not compile", "module": m["text"],
+                                           "asn1c_out": m.get("asn1c_out", "")[-1200:], "build_log": m.get("build_log", "")[-1200:]}, no_input=True)
+            continue
+        vals = XE.make_values(m, rng, tier)
+        ders = model_par(model, ["xder %s %s" % (m["x"][wt]["ety"], XE.val_str(v)) for (fam, wt, v, lab) in vals])
+        # (family, writer count, wrapper) -> DER of the wrapper's value; the C encoders of the WRITER give the other syntaxes
+        items = []
+        prev = {}
+        for vi, ((fam, wt, v, lab), d) in enumerate(zip(vals, ders)):
+            if d in ("NONE", "-") or d.startswith("EXN"):
+                run.violation("ext:model-der", {"what": "the model has no DER for a generated value", "type": wt, "value": XE.val_str(v), "model": d}, no_input=True)
+                continue
+            db = bytes.fromhex(d)
+            wraps_all = XE.SEQ_WRAPS if fam == "S" else XE.CH_WRAPS
+            extra = [w for w in wraps_all if w != ""]
+            start = vi % max(1, len(extra))
+            wraps = [""] + [extra[(start + j) % len(extra)] for j in range(min(eb["wraps_extra"], len(extra)))]
+            n = m["x"][wt]["nadd"]
+            for w in wraps:
+                dd = [db] + ([prev[(fam, n)]] if (w == "InOf" and (fam, n) in prev and vi % 2) else [])
+                items.append({"fam": fam, "n": n, "wrap": w, "lab": lab, "kind": m["x"][wt]["kind"], "der": XE.wrapper_der(m["x"][wt]["kind"], w, dd), "writer": XE.wrapper_name(fam, w, n)})
+            prev[(fam, n)] = db
+        xl = [l for it in items for l in ("xcode %s der %s uper" % (it["writer"], hexs(it["der"])), "xcode %s der %s oer" % (it["writer"], hexs(it["der"])),
+                                          "xcode %s der %s xer" % (it["writer"], hexs(it["der"])))]
+        xo, xe = run_par(m["exe"], xl)
+        for k, info in xe.items():
+            report_crash(run, m, xl[k], {"tn": xl[k].split()[1], "syn": "ber", "kind": "valid", "data": b""}, info, "ext")
+        lines, metas, seen = [], [], set()
+
+        def put(rt, syn, kind, data, orig, it, strict):
+            key = (rt, syn, data)
+            if key in seen or (kind == "trunc" and len(data) >= len(orig)):
+                return
+            seen.add(key)
+            lines.append("d4x %s %s %s" % (rt, syn, hexs(data)))
+            metas.append({"tn": rt, "syn": syn, "kind": kind, "data": data, "orig": orig, "writer": it["writer"], "same": rt == it["writer"], "strict_prefix": strict,
+                          "item": it})
+
+        for ii, it in enumerate(items):
+            counts = XE.SEQ_COUNTS if it["fam"] == "S" else XE.CH_COUNTS
+            readers = [(k, XE.wrapper_name(it["fam"], it["wrap"], k)) for k in counts]
+            # the full battery for the reader that knows least, the writer itself, and others in rotation
+            others = [k for k in counts if k not in (counts[0], it["n"])]
+            batt = {counts[0], it["n"]} | {others[(ii + j) % len(others)] for j in range(max(0, eb["battery_readers"] - 2)) if others}
+            encs = {"ber": it["der"]}
+            for j, sy in enumerate(("uper", "oer", "xer")):
+                o = xo[3 * ii + j]
+                if o.startswith("OK ") and len(o.split()) == 2 and o.split()[1] != "-":
+                    encs[sy] = bytes.fromhex(o.split()[1])
+                else:
+                    run.count("ext_writer_cannot_encode_%s" % sy)      # SET has no PER/OER codec; not a decoder matter
+            variants = XE.ber_variants(it["der"], rng)
+            for (k, rt) in readers:
+                same = (k == it["n"])
+                # ---- BER
+                for vk, V in variants:
+                    put(rt, "ber", "valid" if vk == "der" else "reframe-" + vk, V, V, it, True)
+                    for kind, data in XE.all_prefixes(V, eb["prefix_all"], rng):
+                        put(rt, "ber", kind, data, V, it, True)
+                    if vk != "der":
+                        for kind, data in XE.eoc_mutants(V, rng, eb["eoc"]) + XE.frame_cuts(V, rng, eb["framecut"]):
+                            put(rt, "ber", kind, data, V, it, True)
+                        if k in batt:
+                            for kind, data in mut_bytes_generic(V, rng, eb["generic"], eb["generic"], []):
+                                put(rt, "ber", "re+" + kind, data, V, it, True)
+                if k in batt:
+                    for kind, data in mutants("ber", it["der"], rng, tier, []) + XE.prim_to_constructed(it["der"], rng, eb["p2c"]) + XE.frame_cuts(it["der"], rng, eb["framecut"]):
+                        put(rt, "ber", kind, data, it["der"], it, True)
+                # ---- UPER, OER, XER: what the writer's encoder produced
+                for sy in ("uper", "oer", "xer"):
+                    U = encs.get(sy)
+                    if U is None:
+                        continue
+                    base = U[:-1] if (sy == "xer" and U.endswith(b"\n")) else U
+                    strict = same or sy == "xer"
+                    put(rt, sy, "valid", U, U, it, strict)
+                    for kind, data in XE.all_prefixes(base, eb["prefix_all"], rng):
+                        put(rt, sy, kind, data, U, it, strict)
+                    if k in batt:
+                        for kind, data in mutants(sy, U, rng, tier, [e2 for e2 in (encs.get(sy),) if e2]):
+                            put(rt, sy, kind, data, U, it, strict)
+        jobs.append((m, lines, metas))
+    tlog("ext: %d lines generated" % sum(len(j[1]) for j in jobs))
+    cres = run_many([(m["exe"], lines) for m, lines, metas in jobs], timeout=(150 if tier == "quick" else 1500), max_deaths=40)
+    tlog("ext: C side done, %d process deaths" % sum(len(e) for o, e in cres))
+    for (m, lines, metas), (outs, errs) in zip(jobs, cres):
+        taint = reencode_taint(m)
+        for i, (l, o, me) in enumerate(zip(lines, outs, metas)):
+            run.case(l)
+            run.count("xmut_" + me["kind"].split("+")[-1])
+            run.count("ext_reader_%s" % ("same" if me["same"] else "other"))
+            if i in errs and errs[i][0] == "CRASH":
+                if errs[i][1] == -1 and "not run" in errs[i][2]:
+                    run.count("ext_not_run_after_too_many_deaths")     # the deaths themselves are reported above
+                    continue
+                report_crash(run, m, l, me, errs[i], "ext")
+                continue
+            if i in errs:
+                report_crash(run, m, l, dict(me, kind="exit"), errs[i], "ext")
+            r = check_c_line(run, m, l, o.replace(" ATEXIT", ""), me, "ext", taint)
+            if r is None:
+                continue
+            # the corpus itself: what the writer's own type makes of its own valid encodings
+            if me["same"] and me["kind"] in ("valid", "reframe-indef", "reframe-long") and not (r["rc"] == "OK" and r["consumed"] == len(me["data"]) - (1 if me["syn"] == "xer" and me["data"].endswith(b"\n") else 0)):
+                run.count("ext_valid_not_accepted_%s" % me["syn"])
+                if me["syn"] == "ber" and me["kind"] == "valid":
+                    run.violation("oracle:ext:valid-der-not-accepted", {"what": "the DER of a generated value (wrapper DER computed by lib/c04_ext.py from the model's DER) is not decoded RC_OK / all consumed by its own type",
+                                                                         "module": m["text"], "type": me["tn"], "command_line": l, "c": o})
+            elif me["same"] and me["syn"] == "ber" and me["kind"] == "valid" and r["der"] != hexs(me["data"]):
+                run.violation("oracle:ext:der-roundtrip", {"what": "DER decoded by its own type re-encodes differently", "module": m["text"], "type": me["tn"], "command_line": l, "c": o})
+        if lines:
+            run.sample({"ext_module": m["name"], "lines": len(lines), "first": lines[0][:100], "c": outs[0][:140]})
+    return xmods
+
+
+def leaf_layer(run, rng, tier, model):
+    """the four skip functions alone (harness/leafdrv_c04.inc against coq/Rt/SafetySkip.v): model = C line by line,
+    and the property read off the C's answer: a positive count is within the size, the answer known from the way
+    the input was built (well-formed: its length; any proper prefix: want more; anything appended: no change)"""
+    cases = XE.leaf_cases(rng, tier)
+    lines = [c[0] for c in cases]
+    cdrv = build_leafdrv()
+    (co, ce), = run_many([(cdrv, lines)], per_chunk=400, max_deaths=40)
+    mo = model_par(model, lines)
+    tlog("leaf: %d lines through both sides, %d process deaths" % (len(lines), len(ce)))
+    for i, ((line, kind, exp), c, mm) in enumerate(zip(cases, co, mo)):
+        run.case(line)
+        f = line.split()
+        run.count("leaf_%s_%s" % (f[0], kind.split("+")[0]))
+        rep = {"command_line": line, "kind": kind, "c": c, "model": mm, "expected_by_construction": exp,
+               "replay_cmd": "echo '<command_line>' | <leafdrv>   and   | ocaml/modeldrv"}
+        if i in ce:
+            what, rc, err = ce[i]
+            if rc == -1 and "not run" in err:
+                run.count("leaf_not_run_after_too_many_deaths")
+                continue
+            site = stack_site(err)
+            run.violation("crash:leaf:%s" % (site[0] if site else what), dict(rep, what="leaf driver died (rc=%s): sanitizer report, abort or signal" % rc,
+                                                                             summary=re.findall(r"(SUMMARY: [^\n]*|runtime error: [^\n]*)", err or "")[:3], frames=site, stderr_tail=(err or "")[-2500:]))
+            continue
+        bad = None
+        cf = c.split()
+        size = 0 if f[-1 if f[0] in ("skiplen", "oskip") else 1] == "-" else len(f[-1 if f[0] in ("skiplen", "oskip") else 1]) // 2
+        if f[0] == "skiplen" and cf and cf[0] == "OK" and not (1 <= int(cf[1]) <= size):
+            bad = "ber_skip_length reports %s octets for a buffer of %d" % (cf[1], size)
+        elif f[0] == "oskip" and cf and cf[0] == "OK" and not (1 <= int(cf[2]) <= size):
+            bad = "oer_open_type_skip reports %s octets for a buffer of %d" % (cf[2], size)
+        elif f[0] == "uskip" and cf and cf[0] == "OK" and not (8 <= int(cf[1]) and int(f[2]) + int(cf[1]) <= 8 * size):
+            bad = "uper_open_type_skip moved %s bits from offset %s in a buffer of %d octets" % (cf[1], f[2], size)
+        elif f[0] in ("xskip", "xskiprun") and cf and not (int(cf[1]) >= 0 and (int(cf[0]) in (1, 2)) == (int(cf[1]) == 0 and int(cf[0]) > 0) and int(cf[0]) in (-1, 0, 1, 2)):
+            bad = "xer_skip_unknown: return value and depth counter out of step"
+        elif exp is not None and c != exp:
+            bad = "built to give `%s`" % exp
+        if bad:
+            run.violation("oracle:leaf:%s:%s" % (f[0], kind), dict(rep, what=bad))
+        if c != mm:
+            run.violation("model:leaf:%s" % f[0], dict(rep, what="Rt/SafetySkip.v and the C disagree"), no_input=(bad is None))
+    run.sample({"leaf_lines": len(lines), "first": lines[0], "c": co[0]})
+    return len(lines)
 
 
 def refine_disagreement(run, m, line, o, me, r, n, v, d):
@@ -545,8 +784,11 @@ def main(tier):
                                                    "log_tail": (out if not ok else plog)[-2000:], "grep_gate": gate}, no_input=True)
     model = model_build()
     try:
-        mods = model_layer(run, rng, tier, model) if not os.environ.get("C04_ONLY_WIDE") else []
-        wmods = wide_layer(run, rng, tier)
+        only = os.environ.get("C04_ONLY", "")
+        nleaf = leaf_layer(run, Rng(run.seed * 7919 + 1), tier, model) if only in ("", "leaf", "ext") else 0
+        xmods = ext_layer(run, Rng(run.seed * 7919 + 2), tier, model) if only in ("", "ext") else []
+        mods = model_layer(run, rng, tier, model) if (only == "" and not os.environ.get("C04_ONLY_WIDE")) else []
+        wmods = wide_layer(run, rng, tier) if only in ("", "wide") else []
     except BuildError as e:
         run.violation("build", {"what": str(e)[-2500:]}, no_input=True)
         return run.finish("proof", (nthm, ndis))
@@ -555,12 +797,13 @@ def main(tier):
     tb = ["Coq 8.16.1 kernel; vm_compute only for the Example witnesses", "axioms under Print Assumptions: " + (", ".join(sorted(axioms)) or "none (Closed under the global context)"),
           "extraction: ExtrOcamlBasic only; OCaml 4.13.1; the model runs with a 64 MB stack (EXN Stack overflow = no statement)",
           "lib/modgen.py (generator, independent X.680 tagging), lib/widegen.py, lib/c04_util.py (mutators; BER walker used by the finding predicates)",
-          "harness/moddrv.c + harness/moddrv_c04.inc: exact-size poisoned input buffer, allocation ledger by --wrap=malloc/calloc/realloc/free, ITIMER_VIRTUAL hang guard (2 s CPU)",
+          "harness/moddrv.c + harness/moddrv_c04.inc: exact-size poisoned input buffer, allocation ledger by --wrap=malloc/calloc/realloc/free, ITIMER_VIRTUAL hang guard (2 s CPU); d4x: two more decodes with 32 octets behind the input",
+          "lib/c04_ext.py + lib/extgen.py (families of extensible types, wrappers' DER derived from the model's DER of the plain member, leaf case generator with answers known by construction), harness/leafdrv_c04.inc",
           "gcc 12 -O1 with ASan + UBSan + LSan: memory safety / UB / leaks of the C are OBSERVED on the generated inputs, not proved"]
     return run.finish("proof", (nthm, ndis), trusted_base=tb,
                       checker_cmd="make -C /verif all && coqc -Q coq A1 coq/Props/Properties_C04.v",
-                      extra_cov={"theorems": names, "modules": len(mods), "wide_modules": len(wmods),
-                                 "rule": "one case = one `d4` command (type, syntax, input octets); inputs are distinct per (type, syntax); mutants of valid DER/UPER/OER/XER encodings (truncation at every offset, tag/length octet bit flips, length forms, re-framings, splice, text damage), random strings, deep-nesting inputs",
+                      extra_cov={"theorems": names, "modules": len(mods), "wide_modules": len(wmods), "ext_modules": len(xmods), "leaf_lines": nleaf,
+                                 "rule": "one case = one `d4` / `d4x` command (type, syntax, input octets) or one leaf command (skiplen / uskip / oskip / xskip / xskiprun); inputs are distinct per (type, syntax); mutants of valid DER/UPER/OER/XER encodings (truncation at every offset, tag/length octet bit flips, length forms, re-framings, splice, text damage), random strings, deep-nesting inputs; extensible-type layer: every encoding of a newer family member read by every member, every prefix, frame cuts, end-of-contents damage",
                                  "traces_validated_against_impl": run.cov["evaluations"]},
                       assumptions=["PARTIAL: the theorems are about the Gallina reference decoders (consumed accounting, bounds, fuel, shape); memory safety, UB-freedom and leak-freedom of the compiled C are observed with sanitizers on the mutated inputs only",
                                    "the C accepting what the reference rejects (lenient decoding) is counted, not judged; XER and the wide algebra have no model (survival / consistency only)",
